@@ -5,6 +5,8 @@
    `bin/mkprops.py`, then kept as source).  What is proved and what is partial: DESIGN.md §4. -/
 import Peppi.UbjsonProof
 import Peppi.Lemmas.PeppiRound
+import Peppi.JsonText
+import Peppi.SlppBytes
 set_option linter.unusedVariables false
 namespace Peppi.Props.C16
 
@@ -21,6 +23,38 @@ theorem peppiRead_written {χ : Type} (T : TextOracle) (g : PGame χ) (startByte
     (hframes : g.frames = none → trailerOk = true) :
     peppiRead T false trailerOk (writtenEntries g startBytes endBytes) = .ok g :=
   _root_.Peppi.peppiRead_written T g startBytes endBytes trailerOk hstart hend hgecko hframes
+
+/- from `Peppi.JsonText` -/
+theorem unescStr_esc (s rest : Bytes) : ∀ fuel, s.length < fuel → unescStr fuel (escStr s ++ 0x22 :: rest) = some (s, rest) :=
+  _root_.Peppi.unescStr_esc s rest
+
+/- from `Peppi.JsonText` -/
+theorem parseNatAcc_natDec (n : Nat) : ∀ (acc : Nat) (rest : Bytes), (∀ b, rest.head? = some b → isDecDigit b = false) →
+    parseNatAcc acc (natDec n ++ rest) = (acc * 10 ^ (natDec n).length + n, rest) :=
+  _root_.Peppi.parseNatAcc_natDec n
+
+/- from `Peppi.JsonText` -/
+theorem pVal_json (t : Tree) (fuel : Nat) (rest : Bytes) (hf : nodesT t ≤ fuel) (hr : NoDigitHead rest) :
+      pVal fuel (jsonVal t ++ rest) = some (t, rest) :=
+  _root_.Peppi.pVal_json t fuel rest hf hr
+
+/- from `Peppi.JsonText` -/
+theorem pEntries_json (m : KVs) (fuel : Nat) (first : Bool) (rest : Bytes) (hf : nodesK m ≤ fuel) :
+      pEntries fuel first (jsonKVs first m ++ 0x7d :: rest) = some (m, rest) :=
+  _root_.Peppi.pEntries_json m fuel first rest hf
+
+/- from `Peppi.JsonText` -/
+theorem parseMeta_json (md : Option KVs) : parseMeta (jsonMeta md) = .ok md :=
+  _root_.Peppi.parseMeta_json md
+
+/- from `Peppi.SlppBytes` -/
+theorem slppRead_written_json (C : Codec KVs) (T : TextOracle) (g : PGame KVs) (startBytes : Bytes) (endBytes : Option Bytes)
+    (hstart : gameStart T startBytes = .ok g.start)
+    (hend : endBytes.map gameEnd = g.fend.map Res.ok)
+    (hgecko : ∀ c, g.gecko = some c → c.2 < 2 ^ 32)
+    (hs : SizesOK C.withJsonMeta g startBytes endBytes) (skip : Bool) :
+    slppRead C.withJsonMeta T skip (slppWrite C.withJsonMeta g startBytes endBytes) = .ok (if skip then { g with frames := none } else g) :=
+  _root_.Peppi.slppRead_written_json C T g startBytes endBytes hstart hend hgecko hs skip
 
 theorem writeMap_enc (utf8 : Bytes → Bool) (m : KVs) (d : Nat) (h : KVs.WF utf8 d m) :
     writeMap m = .ok (encKVs m) :=
